@@ -40,6 +40,8 @@ func init() {
 		fs.OptNat("defDepth", 0, false, serverPath)
 		fs.OptNat("defPer", 0, false, serverPath)
 		fs.Tri("islandCacheKeyedByN", Unknown, "")
+		fs.Tri("unroutedReturnsError", Unknown, "")
+		fs.Tri("pathCacheKeyedByArgs", Unknown, "")
 		for _, n := range []string{"routeLastWins", "routeLookupByIsland", "routeValidatesRanges"} {
 			fs.Tri(n, Unknown, "sdk/go/hydraidego/client/client.go")
 		}
@@ -75,6 +77,13 @@ func init() {
 					if f.Str(is.Cond) == "n."+field+" != 0" && len(is.Body.List) == 1 && f.Str(is.Body.List[0]) == "return n."+field {
 						return No
 					}
+					// keyed by the count: `n.X != 0 && n.<for> == <param>` and `n.<for> = <param>` next to the store
+					param := fd.Type.Params.List[0].Names[0].Name
+					if be, ok := is.Cond.(*ast.BinaryExpr); ok && f.Str(be.X) == "n."+field+" != 0" && len(is.Body.List) == 1 && f.Str(is.Body.List[0]) == "return n."+field {
+						if eq, ok := be.Y.(*ast.BinaryExpr); ok && f.Str(eq.Y) == param && strings.HasPrefix(f.Str(eq.X), "n.") && f.Contains(fd, f.Str(eq.X)+" = "+param) {
+							return Yes
+						}
+					}
 					return Unknown
 				}
 			}
@@ -82,6 +91,21 @@ func init() {
 		}
 		if a, b := cacheOf(sdk, "GetIslandID", "IslandNumber"), cacheOf(srv, "GetFolderNumber", "FolderNumber"); a == No && b == No {
 			fs.Tri("islandCacheKeyedByN", No, srvPath)
+		} else if a == Yes && b == Yes {
+			fs.Tri("islandCacheKeyedByN", Yes, srvPath)
+		}
+		// ---- memoised path: `if n.HashPath != "" { return n.HashPath }` ignores the arguments
+		if fd := srv.Func("name", "GetFullHashPath"); fd != nil && fd.Body != nil {
+			for _, st := range fd.Body.List {
+				if is, ok := st.(*ast.IfStmt); ok && strings.Contains(srv.Str(is.Cond), `n.HashPath != ""`) && len(is.Body.List) == 1 && srv.Str(is.Body.List[0]) == "return n.HashPath" {
+					switch {
+					case srv.Str(is.Cond) == `n.HashPath != ""`:
+						fs.Tri("pathCacheKeyedByArgs", No, srvPath+":"+itoa(srv.Line(is)))
+					case srv.Str(is.Cond) == `n.HashPath != "" && n.hashPathFor == key` && srv.Contains(fd, `key := fmt.Sprintf("%s|%d|%d|%d", rootPath, islandID, depth, maxFoldersPerLevel)`) && srv.Contains(fd, "n.hashPathFor = key"):
+						fs.Tri("pathCacheKeyedByArgs", Yes, srvPath+":"+itoa(srv.Line(is)))
+					}
+				}
+			}
 		}
 		// ---- hashed path
 		c20Path(fs, srv, srvPath)
@@ -168,11 +192,31 @@ func c20Routing(fs *Facts) {
 	for _, m := range []string{"GetServiceClient", "GetServiceClientAndHost"} {
 		fd := f.Func("client", m)
 		if fd == nil || !f.Contains(fd, "folderNumber := swampName.GetIslandID(c.allIslands)") ||
-			!f.Contains(fd, "if serviceClient, ok := c.serviceClients[folderNumber]; ok {") || !f.Contains(fd, "return nil") {
+			!f.Contains(fd, "if serviceClient, ok := c.serviceClients[folderNumber]; ok {") ||
+			!(f.Contains(fd, "return nil") || f.Contains(fd, "unroutable{island: folderNumber}")) {
 			look = false
 		}
 	}
 	fs.Tri("routeLookupByIsland", TriOf(look), path)
+	// the not-found branch: `return nil` (no) or an error-returning client built on `unroutable{…}` (yes)
+	if look {
+		nils, errs := 0, 0
+		for _, m := range []string{"GetServiceClient", "GetServiceClientAndHost"} {
+			fd := f.Func("client", m)
+			last := fd.Body.List[len(fd.Body.List)-1]
+			switch {
+			case f.Str(last) == "return nil":
+				nils++
+			case strings.Contains(f.Str(last), "unroutable{") && f.Func("unroutable", "Invoke") != nil && f.Contains(f.Func("unroutable", "Invoke"), "status.Errorf(codes.Unavailable"):
+				errs++
+			}
+		}
+		if nils == 2 {
+			fs.Tri("unroutedReturnsError", No, path)
+		} else if errs == 2 {
+			fs.Tri("unroutedReturnsError", Yes, path)
+		}
+	}
 	// any other use of the range bounds (a validation would have to read them)
 	uses := 0
 	ast.Inspect(f.AST, func(n ast.Node) bool {
